@@ -168,7 +168,11 @@ def build_call(op, rng, H, W):
         spec['f'] = classify.reclassify; spec['arrays'] = [a]; spec['kwargs'] = dict(bins=bins, new_values=[float(v) for v in rng.integers(0, 9, nb)])
     elif op == 'equal_interval':
         a = _raster(rng, H, W)[2]
-        spec['f'] = classify.equal_interval; spec['arrays'] = [a]; spec['kwargs'] = dict(k=int(rng.integers(2, 12))); spec['compare'] = 'equal_interval'
+        kk = int(rng.integers(2, 12))
+        if rng.random() < 0.4:
+            # decimal grid: many cells sit exactly on class boundaries (cuts computed in another precision move them)
+            a = (rng.integers(0, 21, (H, W)) * 0.05).astype(str(rng.choice(['float32', 'float32', 'float64']))); kk = int(rng.choice([4, 5, 10]))
+        spec['f'] = classify.equal_interval; spec['arrays'] = [a]; spec['kwargs'] = dict(k=kk); spec['compare'] = 'equal_interval'
     elif op in ('arvi', 'evi', 'gci', 'nbr', 'nbr2', 'ndvi', 'ndmi', 'savi', 'sipi', 'ebbi'):
         nb = {'arvi': 3, 'evi': 3, 'gci': 2, 'nbr': 2, 'nbr2': 2, 'ndvi': 2, 'ndmi': 2, 'savi': 2, 'sipi': 3, 'ebbi': 3}[op]
         dtype = str(rng.choice(['uint8', 'uint16', 'float32', 'float64', 'int32']))
